@@ -7,6 +7,7 @@ import (
 	"fmt"
 	"os"
 	"os/exec"
+	"os/signal"
 	"path/filepath"
 	"regexp"
 	"runtime"
@@ -209,6 +210,8 @@ func runChild(p *Prop, b Batch, scratch string, idx int) *childResult {
 		res.exit = 127
 		return res
 	}
+	trackChild(cmd.Process.Pid, true)
+	defer trackChild(cmd.Process.Pid, false)
 	timeout := time.Duration(b.TimeoutS) * time.Second
 	if timeout == 0 {
 		timeout = 5 * time.Minute
@@ -260,6 +263,38 @@ func runChild(p *Prop, b Batch, scratch string, idx int) *childResult {
 		res.race = parseRaceLogs(dir)
 	}
 	return res
+}
+
+// Children run in process groups of their own (so that a batch can be killed with its
+// grandchildren); when the driver itself is told to stop it takes them along.
+var (
+	childMu   sync.Mutex
+	children  = map[int]bool{}
+	childOnce sync.Once
+)
+
+func trackChild(pid int, running bool) {
+	childOnce.Do(func() {
+		ch := make(chan os.Signal, 1)
+		signal.Notify(ch, syscall.SIGTERM, syscall.SIGINT, syscall.SIGHUP)
+		go func() {
+			<-ch
+			childMu.Lock()
+			for p := range children {
+				syscall.Kill(-p, syscall.SIGKILL)
+			}
+			childMu.Unlock()
+			fmt.Println("INTERRUPTED: driver stopped by a signal, children killed")
+			os.Exit(3)
+		}()
+	})
+	childMu.Lock()
+	if running {
+		children[pid] = true
+	} else {
+		delete(children, pid)
+	}
+	childMu.Unlock()
 }
 
 var reGoroutineFrame = regexp.MustCompile(`(?m)^(github\.com/jirenius/go-res[^\s(]*|verif/harness[^\s(]*)\(`)
